@@ -59,6 +59,7 @@ type OblStat struct {
 	Discharged int // answered unsat (or constant-true)
 	Trivial    int // constant-folded to true
 	Nontrivial int // reachable and still symbolic
+	PathDependent int // constant-true on a path selected by symbolic decisions
 	Reached    int
 	Pos        map[string]bool
 	SolverMs   float64
@@ -354,6 +355,10 @@ func (s *Session) Obligation(id, kind string, cond *Term, pos, msg string) bool 
 		st.Posed++
 		st.Discharged++
 		st.Trivial++
+		if len(s.ex.ctl.trace) > 0 {
+			// constant on this path, but the path itself was selected by solver-checked symbolic decisions
+			st.PathDependent++
+		}
 		return true
 	}
 	st.Posed++
